@@ -71,13 +71,15 @@ EXC_PARENTS = {
     "IndexError": ["LookupError", "Exception"], "AttributeError": ["Exception"], "TypeError": ["Exception"],
     "ValueError": ["Exception"], "RuntimeError": ["Exception"], "NotImplementedError": ["RuntimeError", "Exception"],
     "ImportError": ["Exception"], "UserError": ["Exception"], "OSError": ["Exception"],
+    # not Exceptions: `except Exception` does not catch them, `finally` / `except BaseException` do
+    "KeyboardInterrupt": [], "SystemExit": [], "GeneratorExit": [], "PoolShutdownError": ["Exception"],
 }
 
 
 def exc_matches(name, handler_types):
     if handler_types is None:
         return True
-    fam = [name] + EXC_PARENTS.get(name, ["Exception"])
+    fam = [name] + (EXC_PARENTS[name] if name in EXC_PARENTS else ["Exception"])
     return any(h in fam or h == "BaseException" for h in handler_types)
 
 
@@ -663,6 +665,15 @@ class Interp:
                 if f"{c}.{attr}" in self.reg.handlers:
                     return Fn(self.reg.handlers[f"{c}.{attr}"], f"{c}.{attr}", bound=o)
             if default is not None:
+                if attr not in o.absent and o.cls in self.front.classes and self.front.instance_attr_values(o.cls, attr):
+                    # getattr(obj, name, default) on an attribute the class assigns somewhere but the contract's state does not list: the object may
+                    # come from an earlier call (attribute present, any value) or be fresh (absent -> default)
+                    if self.path.choose(2, f"present:{o.cls}.{attr}") == 1:
+                        v = self.havoc_unmodelled_attr(o, attr, n)
+                        if v is not None:
+                            return v
+                    else:
+                        o.absent.add(attr)
                 return default
             if attr not in o.absent and o.cls in self.front.classes:
                 v = self.havoc_unmodelled_attr(o, attr, n)
